@@ -127,6 +127,7 @@ def make_workload(seed, i):
         for _ in range(eb.randint(0, 2)):
             what_.append(E.apply_edit(pkg, eb, eb.choice(["retype_field", "change_enum", "shrink_enum"])))
         desc["evolution_breaking_edits"] = [w_ for w_ in what_ if w_]
+    rng.fork("importorder").shuffle(pkg.imports)      # the manifest lists the imported packages in any order
     ah = rng.fork("arrayheader")
     if "cpp" in pkg.targets and ah.chance(0.4):
         # the array header of the C++ target given as a path relative to the package (a file kept next to the model)
@@ -226,6 +227,18 @@ def run_case(sim, check, seed, i, K, n_crash):
             diff = sorted(p_ for p_ in set(a) | set(b) if a.get(p_) != b.get(p_))
             viols.append(({"class": "output_depends_on_the_path_the_package_was_reached_by", "where": (diff[0] if diff else "exit %s" % rv.get("exit_code")).replace("/w/", "")[:200]},
                           {"mode": "via_symlink", "files": files, "cwd": cwd, "mapseeds": [mapseeds[0]], "seed": seed, "case": desc}))
+    # the same command with another logging flag: what is printed differs, what is generated must not
+    if stats["accepted"] and (desc.get("args") or ["generate"])[0] == "generate":
+        dv = dict(desc, args=list(desc.get("args") or ["generate"]) + ["--verbose"])
+        rb = sim.run(oneshot(dv, files, cwd), mapseed=mapseeds[0])
+        stats["runs"] += 1
+        stats["verbose_run"] = 1
+        a = {p_: c_ for p_, c_ in tw.tree_files(results[0]["tree"]).items() if p_ not in files}
+        b = {p_: c_ for p_, c_ in tw.tree_files(rb.get("tree") or {}).items() if p_ not in files}
+        if rb.get("status") != "returned" or rb.get("exit_code") != 0 or a != b:
+            diff = sorted(p_ for p_ in set(a) | set(b) if a.get(p_) != b.get(p_))
+            viols.append(({"class": "output_depends_on_the_logging_flag", "where": (diff[0] if diff else "exit %s" % rb.get("exit_code")).replace("/w/", "")[:200]},
+                          {"mode": "verbose", "files": files, "cwd": cwd, "mapseeds": [mapseeds[0]], "seed": seed, "case": desc}))
     # idempotence: second run on the disk the first one left behind issues no mutation
     if stats["accepted"]:
         populated = dict(files)
@@ -337,6 +350,12 @@ def replay(sim, doc):
         a = {p_: c_ for p_, c_ in tw.tree_files(r1["tree"]).items() if p_ not in files}
         b = {p_: c_ for p_, c_ in tw.tree_files(rv.get("tree") or {}).items() if p_ not in files}
         return a != b or rv.get("exit_code") != 0, "files generated through /via/pkg %s those generated in /w/pkg" % ("differ from" if a != b else "equal")
+    if mode == "verbose":
+        r1 = sim.run(oneshot(desc, files, cwd), mapseed=ms[0])
+        rb = sim.run(oneshot(dict(desc, args=list(desc.get("args") or ["generate"]) + ["--verbose"]), files, cwd), mapseed=ms[0])
+        a = {p_: c_ for p_, c_ in tw.tree_files(r1["tree"]).items() if p_ not in files}
+        b = {p_: c_ for p_, c_ in tw.tree_files(rb.get("tree") or {}).items() if p_ not in files}
+        return a != b or rb.get("exit_code") != 0, "files generated with --verbose %s those generated without" % ("differ from" if a != b else "equal")
     if mode == "rerun":
         r1 = sim.run(oneshot(desc, files, cwd), mapseed=ms[0])
         populated = dict(files); populated.update(tw.tree_files(r1["tree"]))
@@ -414,7 +433,7 @@ def main():
     max_cases = 160 if quick else 100000
     totals = {"runs": 0, "accepted": 0, "rejected_with_diagnostics": 0, "with_versions": 0, "invalid": 0,
               "crash_points": 0, "crash_left_torn_file": 0, "crash_left_same_size_torn_file": 0, "warnings_seen": 0,
-              "dirty_starts": 0, "dirty_same_size_stale_file": 0, "cases_with_errors_in_several_versions": 0, "executions_with_a_seeded_goroutine_schedule": 0, "cases_in_which_the_tool_ran_several_goroutines": 0, "cases_also_run_through_a_symlinked_path": 0, "cases_with_config_overrides": 0, "cases_with_several_unknown_config_keys": 0}
+              "dirty_starts": 0, "dirty_same_size_stale_file": 0, "cases_with_errors_in_several_versions": 0, "executions_with_a_seeded_goroutine_schedule": 0, "cases_in_which_the_tool_ran_several_goroutines": 0, "cases_also_run_through_a_symlinked_path": 0, "cases_also_run_with_verbose": 0, "cases_with_config_overrides": 0, "cases_with_several_unknown_config_keys": 0}
     i = 0
     batch = 32
     while i < max_cases and check.elapsed() < budget:
@@ -431,6 +450,7 @@ def main():
             totals["cases_with_errors_in_several_versions"] += 1 if d.get("errors_in_several_versions") else 0
             totals["executions_with_a_seeded_goroutine_schedule"] += K - 1
             totals["cases_also_run_through_a_symlinked_path"] += stats.get("via_symlink", 0)
+            totals["cases_also_run_with_verbose"] += stats.get("verbose_run", 0)
             totals["cases_with_config_overrides"] += 1 if d.get("args") else 0
             totals["cases_with_several_unknown_config_keys"] += 1 if d.get("unknown_config_keys") else 0
             totals["cases_in_which_the_tool_ran_several_goroutines"] += 1 if stats.get("goroutines", 0) > 1 else 0
